@@ -476,6 +476,84 @@ def g_strings(strings, tbl=None, keep=True):
     return tbl[txt]
 
 
+
+# ---------------------------------------------------------------------------------------- rule arguments, defines
+def rule_args_of(case):
+    return [rf.get("arg") or ((rf["ns"] + ":" if rf["ns"] else "") + rf["name"]) for rf in case["rule_files"]]
+
+
+def py_parse_i64(v):
+    body = v[1:] if v[:1] in ("-", "+") else v
+    if not body or not all("0" <= c <= "9" for c in body):
+        return None
+    z = int(body) * (-1 if v[:1] == "-" else 1)
+    return z if -2 ** 63 <= z <= 2 ** 63 - 1 else None
+
+
+def py_parses_as_float(v):
+    import re
+    return re.fullmatch(r"[+-]?([0-9]+\.[0-9]*|\.[0-9]+)([eE][+-]?[0-9]+)?", v) is not None
+
+
+def py_parse_define(arg):
+    """Python mirror of Model/Cli.v parse_define (the Coq term checks that they agree)"""
+    name, value = arg.split("=", 1)
+    if value == "true":
+        return name, "bool", True
+    if value == "false":
+        return name, "bool", False
+    if "." in value:
+        return (name, "float", value) if py_parses_as_float(value) else (name, "bytes", value)
+    z = py_parse_i64(value)
+    return (name, "int", z) if z is not None else (name, "bytes", value)
+
+
+DEFINE_VALUES = ["5", "+5", "-0", "007", "-17", "9223372036854775807", "-9223372036854775808", "9223372036854775808",
+                 "1.5", "1.", ".5", "-2.25", "1.5e3", "1.2.3", "1e5", "1.e", "true", "false", "True", "", "x=y", "0x10",
+                 "-", "+", " 5", "abc", "a.b", ".", "inf", "héllo", "3.0"]
+
+
+def gen_defines(rng, rf, decls):
+    """external symbols: (-d args, rules that are true exactly when the symbol has the value the model derives)"""
+    defs = []
+    ns0 = rf[0]["ns"] or "default"
+    for k in range(rng.choice([1, 2, 3])):
+        name = "ext_%d" % k
+        value = rng.choice(DEFINE_VALUES)
+        arg = "%s=%s" % (name, value)
+        _, kind, v = py_parse_define(arg)
+        if kind == "bool":
+            cond = name if v else "not %s" % name
+        elif kind == "int":
+            cond = "%s == %d" % (name, v) if v > -2 ** 63 else "%s < -9223372036854775807" % name
+        elif kind == "float":
+            fv = float(v)
+            cond = "%s > %r and %s < %r" % (name, fv - 0.25, name, fv + 0.25)
+            cond = cond.replace("e+", "e")
+        else:
+            cond = '%s == "%s"' % (name, yara_escape(v.encode()))
+        rname = "uses_%s" % name
+        rf[0]["text"] += "rule %s { condition: %s }\n" % (rname, cond)
+        decls.append({"ns": ns0, "name": rname, "tags": [], "metas": [], "private": False, "global": False, "strings": []})
+        defs.append({"arg": arg, "name": name, "kind": kind, "value": v})
+    return defs
+
+
+def variant_rule_files(rng, rf, decls):
+    """file names with a colon; a decoy file next to a `ns:file` argument. Returns extra files to create."""
+    extra = []
+    for i, r in enumerate(rf):
+        k = rng.below(10)
+        if k == 0:
+            r["name"] = "r:%d.yar" % i                      # a colon in the file name itself
+        elif k == 1 and r["ns"] is None:
+            r["name"] = "x:rules%d.yar" % i                 # exists as a whole: not a namespace prefix
+            extra.append({"name": "rules%d.yar" % i, "text": "rule decoy_%d { condition: true }\n" % i})
+        elif k == 2:
+            r["name"] = "my rules %d.yar" % i
+    return extra
+
+
 class C18(Prop):
     ID = "C18"
     LEVEL = "proof"
@@ -548,9 +626,17 @@ class C18(Prop):
             root, tree, ext = gen_tree(rng.fork("tree"))
             shared = (rf, decls, root, tree, ext)
         rf, decls, root, tree, ext = shared
+        rf = [dict(r) for r in rf]
+        decls = list(decls)
+        r2 = rng.fork("compile")
+        extra = variant_rule_files(r2, rf, decls) if r2.chance(1, 3) else []
+        defines = gen_defines(r2, rf, decls) if r2.chance(1, 4) else []
+        if r2.chance(1, 50):
+            rf[-1]["text"] += "rule broken { condition: $undeclared }\n"
         inv = gen_invocation(rng.fork("inv"), decls, root, tree, ext)
         inv["argv_flags"] = argv_flags(rng.fork("argv"), inv)
-        return {"rule_files": rf, "decls": decls, "root": root, "tree": tree, "ext": ext, "inv": inv}
+        return {"rule_files": rf, "decls": decls, "root": root, "tree": tree, "ext": ext, "inv": inv,
+                "extra_files": extra, "defines": defines}
 
     def gen_probe(self, rng):
         """controlled schedule: a scan list of named pipes, --no-mmap, n workers; the driver picks the completion order"""
@@ -627,7 +713,7 @@ class C18(Prop):
 
     def materialise(self, d, case):
         os.makedirs(d)
-        for rf in case["rule_files"]:
+        for rf in case["rule_files"] + case.get("extra_files", []):
             open(os.path.join(d, rf["name"]), "w").write(rf["text"])
         ext_root = os.path.join(d, "ext")
         os.makedirs(ext_root)
@@ -654,23 +740,14 @@ class C18(Prop):
 
     def run_cli(self, d, case):
         inv = case["inv"]
-        rule_args = [(rf["ns"] + ":" if rf["ns"] else "") + rf["name"] for rf in case["rule_files"]]
         env = dict(os.environ, RUST_BACKTRACE="0", NO_COLOR="1")
-        pre = None
         if inv["mode"] in ("load", "yrC"):
-            cmd = [CLI, "save"] + sum([["-f", r] for r in rule_args], []) + ["compiled.bin"]
-            pre = subprocess.run(cmd, cwd=d, env=env, stdout=subprocess.PIPE, stderr=subprocess.PIPE, timeout=CLI_TIMEOUT)
+            pre = subprocess.run(self.save_cmd(case), cwd=d, env=env, stdout=subprocess.PIPE, stderr=subprocess.PIPE,
+                                 timeout=CLI_TIMEOUT)
             if pre.returncode != 0:
-                return {"save_failed": pre.returncode, "stderr": pre.stderr.decode("utf-8", "replace")[-800:]}
-        tgt = self.target_arg(case)
-        if inv["mode"] == "scan":
-            cmd = [CLI, "scan"] + inv["argv_flags"] + sum([["-f", r] for r in rule_args], []) + ["--", tgt]
-        elif inv["mode"] == "yr":
-            cmd = [CLI, "yr"] + inv["argv_flags"] + ["--"] + rule_args + [tgt]
-        elif inv["mode"] == "load":
-            cmd = [CLI, "load"] + inv["argv_flags"] + ["--", "compiled.bin", tgt]
-        else:
-            cmd = [CLI, "yr", "-C"] + inv["argv_flags"] + ["--", "compiled.bin", tgt]
+                return {"save_failed": pre.returncode, "stdout": pre.stdout.hex(),
+                        "stderr": pre.stderr.decode("utf-8", "replace")[-800:]}
+        cmd = self.cli_cmd(case)
         try:
             p = subprocess.run(cmd, cwd=d, env=env, stdout=subprocess.PIPE, stderr=subprocess.PIPE, timeout=CLI_TIMEOUT)
         except subprocess.TimeoutExpired as ex:
@@ -703,14 +780,22 @@ class C18(Prop):
         rec(start, 0, False)
         return out
 
+    def define_args(self, case):
+        return sum([["-d", x["arg"]] for x in case.get("defines", [])], [])
+
+    def save_cmd(self, case):
+        return ([CLI, "save"] + self.define_args(case) + sum([["-f", r] for r in rule_args_of(case)], [])
+                + ["--", "compiled.bin"])
+
     def cli_cmd(self, case):
         inv = case["inv"]
-        rule_args = [(rf["ns"] + ":" if rf["ns"] else "") + rf["name"] for rf in case["rule_files"]]
+        rule_args = rule_args_of(case)
         tgt = self.target_arg(case)
         if inv["mode"] == "scan":
-            return [CLI, "scan"] + inv["argv_flags"] + sum([["-f", r] for r in rule_args], []) + ["--", tgt]
+            return ([CLI, "scan"] + inv["argv_flags"] + self.define_args(case) + sum([["-f", r] for r in rule_args], [])
+                    + ["--", tgt])
         if inv["mode"] == "yr":
-            return [CLI, "yr"] + inv["argv_flags"] + ["--"] + rule_args + [tgt]
+            return [CLI, "yr"] + inv["argv_flags"] + self.define_args(case) + ["--"] + rule_args + [tgt]
         if inv["mode"] == "load":
             return [CLI, "load"] + inv["argv_flags"] + ["--", "compiled.bin", tgt]
         return [CLI, "yr", "-C"] + inv["argv_flags"] + ["--", "compiled.bin", tgt]
@@ -720,12 +805,12 @@ class C18(Prop):
         inv = case["inv"]
         pr = inv["probe"]
         env = dict(os.environ, RUST_BACKTRACE="0", NO_COLOR="1")
-        rule_args = [(rf["ns"] + ":" if rf["ns"] else "") + rf["name"] for rf in case["rule_files"]]
         if inv["mode"] in ("load", "yrC"):
-            pre = subprocess.run([CLI, "save"] + sum([["-f", r] for r in rule_args], []) + ["compiled.bin"], cwd=d, env=env,
+            pre = subprocess.run(self.save_cmd(case), cwd=d, env=env,
                                  stdout=subprocess.PIPE, stderr=subprocess.PIPE, timeout=CLI_TIMEOUT)
             if pre.returncode != 0:
-                return {"save_failed": pre.returncode, "stderr": pre.stderr.decode("utf-8", "replace")[-800:]}
+                return {"save_failed": pre.returncode, "stdout": pre.stdout.hex(),
+                        "stderr": pre.stderr.decode("utf-8", "replace")[-800:]}
         paths = ["t/" + f["name"] for f in pr["fifos"]]
         content = {"t/" + f["name"]: bytes.fromhex(f["hex"]) for f in pr["fifos"]}
         for pth in paths:
@@ -872,7 +957,16 @@ class C18(Prop):
             pre = list(ex.map(self.one, list(enumerate(cases))))
         hc = []
         for case, r in zip(cases, pre):
+            syms = []
+            for x in case.get("defines", []):
+                if x["kind"] == "bytes":
+                    syms.append({"name": x["name"], "bytes": hx(x["value"].encode())})
+                elif x["kind"] == "float":
+                    syms.append({"name": x["name"], "float": float(x["value"])})
+                else:
+                    syms.append({"name": x["name"], x["kind"]: x["value"]})
             hc.append({"cwd": r["dir"], "rules": [{"ns": rf["ns"], "file": rf["name"]} for rf in case["rule_files"]],
+                       "csymbols": syms,
                        "params": params_of_flags(case["inv"]["flags"]), "files": r["candidates"]})
         libs = core.harness_run(ctx.binp, "c18", hc)
         outs = []
@@ -882,6 +976,12 @@ class C18(Prop):
             inv = case["inv"]
             if "probe" in inv:
                 ctx.count("controlled-schedule")
+            if case.get("defines"):
+                ctx.count("defines")
+            if any(":" in rf["name"] for rf in case["rule_files"]):
+                ctx.count("colon-in-rules-file-name")
+            if isinstance(lib, dict) and "compile_error" in lib:
+                ctx.count("compile-error")
             ctx.count("mode=" + inv["mode"])
             ctx.count("target=" + inv["target"]["kind"])
             ctx.count("threads=%s" % inv["threads"])
@@ -966,10 +1066,37 @@ class C18(Prop):
             gbytes(bytes.fromhex(r["ns"])), gbytes(bytes.fromhex(r["name"])), gbool(r["matched"]),
             g_strings(r["strings"], self._ms, self._keep))
 
+    def g_args_ok(self, case):
+        existing = [rf["name"] for rf in case["rule_files"] + case.get("extra_files", [])]
+        compiled = ["(%s, %s)" % (gopt(rf["ns"], gb), gb(rf["name"])) for rf in case["rule_files"]]
+        defined = []
+        for x in case.get("defines", []):
+            v = {"bool": lambda v: "XBool %s" % gbool(v), "int": lambda v: "XInt %s" % gZ(v),
+                 "float": lambda v: "XFloat %s" % gb(v), "bytes": lambda v: "XBytes %s" % gb(v)}[x["kind"]](x["value"])
+            defined.append("(%s, %s)" % (gb(x["name"]), v))
+        return "C18_compile_args_ok %s %s %s %s %s" % (
+            glist([gb(e) for e in existing]), glist([gb(a) for a in rule_args_of(case)]), glist(compiled),
+            glist([gb(x["arg"]) for x in case.get("defines", [])]), glist(defined))
+
     def term(self, ctx, case, out):
+        cli, lib = out["cli"], out["lib"]
+        if isinstance(lib, dict) and "compile_error" in lib:
+            # the library rejects the rules: the tool must fail the same way, before scanning anything
+            if "save_failed" in cli:
+                so, rc = bytes.fromhex(cli.get("stdout", "")), cli["save_failed"]
+            elif "rc" in cli:
+                so, rc = bytes.fromhex(cli["stdout"]), cli["rc"]
+            else:
+                return (False, False, 0)
+            lines = so.split(b"\n")[:-1] if so else []
+            return "C18_compile_fail_case %s %d" % (glist([gbytes(l) for l in lines]), rc)
         p = self.parts(case, out)
         if p is None:
             return (False, False, 0)
+        if "probe" not in case["inv"]:
+            return p["lets"] + "with_args (%s) (C18_case (%s) (%s) (%s) (%s) %s (%s) (%s) %s %s %s %d)" % (
+                self.g_args_ok(case),
+                p["s"], p["o"], p["i"], p["used"], p["decls"], p["target"], p["starget"], p["tbl"], p["out"], p["err"], p["rc"])
         if "probe" in case["inv"]:
             cli = out["cli"]
             if not cli.get("driver_ok"):
@@ -1051,8 +1178,6 @@ class C18(Prop):
             return None                    # output does not end with a newline
         err_lines = [l for l in stderr.split(b"\n") if l.startswith(self.STDERR_PREFIXES)]
         out_exact = glist([gbytes(l) for l in out_lines])
-        if t["kind"] != "file":
-            out_lines = sorted(out_lines)
         lets = "".join("let %s := %s in " % (name, txt) for txt, name in self._ms.items())
         return {"lets": lets, "out_exact": out_exact, "s": s_opts, "o": o_opts, "i": i_opts, "used": g_used, "decls": decls, "target": target,
                 "starget": starget, "tbl": glist(tbl), "out": glist([gbytes(l) for l in out_lines]),
